@@ -105,10 +105,13 @@ m = {
  "checks": [], "not_applicable": [],
  "notes": "bin/check <ID> --tier quick|thorough; exit 0 held / 1 violation / 2 harness error. known-findings.txt lists fixed defects and recorded findings.",
 }
+LIB = {"C01","C03","C04","C05","C06","C07","C08","C09","C10","C11","C12","C13","C14","C15","C17","C18","C19","C20"}
+LIB_NOTE = "; plus the library conformance harness (seq/c00_lib.c): the shared primitives the property rests on (substdio under every read/write schedule, byte/str/case functions, number scanning, constmap, cdb, control-file parsing, seek) exhaustively over small domains against trivial references"
 for p in props:
     i = p["id"]
     if i in CHECKS:
-        c = CHECKS[i]
+        c = dict(CHECKS[i])
+        if i in LIB: c["technique"] = c["technique"] + LIB_NOTE
         m["checks"].append({
             "property_id": i, "quick_cmd": "bin/check %s --tier quick" % i,
             "thorough_cmd": "bin/check %s --tier thorough" % i,
